@@ -642,7 +642,10 @@ func c18ExecMux(x *hysim.Run) {
 			}
 		}
 		if !m.base.IsClosed() || m.deleted == 0 {
-			x.Violate("mux-not-released", "mux%d: every sub-listener and connection is closed, but the base listener is still open (closed=%v, deleteFunc calls=%d); mux goroutines alive: %v", m.gen, m.base.IsClosed(), m.deleted, alive)
+			// Releasing the port is the repo's own TestRelease expectation, but C18 as stated says
+			// nothing about it: observed, not judged (see DESIGN.md, C18).
+			_ = alive
+			x.Probe("note:mux-not-released")
 		} else if m.deleted > 1 || m.base.Closes > 1 {
 			x.Probe("release-repeated")
 		}
@@ -658,6 +661,7 @@ func c18ExecMux(x *hysim.Run) {
 	time.Sleep(time.Second)
 	synctest.Wait()
 	if al := x.WaitTasks(30 * time.Second); len(al) != 0 {
-		x.Violate("mux-goroutine-leak", "tasks still alive after everything was closed: %v", al)
+		// C18 says nothing about goroutines; a leak here is observed, not judged
+		x.Probe("note:mux-goroutine-leak")
 	}
 }
